@@ -360,6 +360,9 @@ func runREFLECTSET(c *Ctx) {
 					c.OK(pos, what, why, false)
 				} else if ir.FlowNonNil(x, vo) {
 					c.OK(pos, what, "tested non-nil on every path", false)
+				} else if prm, isP := x.(*ssa.Parameter); isP && prm.Parent() == fn && privateHelper(c, fn) && reflectArgNonNilAtCalls(c, fn, paramIndex(prm), 0) {
+					// the copy-out was extracted into a private helper (setPointee(ptr, v)): the test is the caller's
+					c.OK(pos, what, "a parameter of a private helper: tested non-nil before every call of it", false)
 				} else {
 					c.Violation(fn, pos, role+" of reflect Set may be a nil interface",
 						"reflect.ValueOf(nil) is the zero Value, and Set / Elem on it panics: a lookup of an entry whose stored value is nil (a set-like tree) with a non-nil out-parameter crashes instead of reporting the entry")
@@ -370,6 +373,30 @@ func runREFLECTSET(c *Ctx) {
 	if n == 0 {
 		c.Note("no reflect.Value.Set in the tree package: nothing to check")
 	}
+}
+
+// reflectArgNonNilAtCalls: every call of the private helper fn hands it, as argument idx, a value known non-nil at
+// the call (or its own parameter, decided at its callers in turn).
+func reflectArgNonNilAtCalls(c *Ctx, fn *ssa.Function, idx, depth int) bool {
+	if idx < 0 || depth > 2 || len(c.P.Callers[fn]) == 0 {
+		return false
+	}
+	for _, cs := range c.P.Callers[fn] {
+		args := cs.Common().Args
+		if _, isCall := cs.(*ssa.Call); !isCall || cs.Common().IsInvoke() || ir.Callee(cs.Common()) != fn || idx >= len(args) {
+			return false
+		}
+		a := ir.Strip(args[idx])
+		if ok, _ := ir.GuardedNonNil(a, cs); ok || ir.FlowNonNil(a, cs) {
+			continue
+		}
+		g := cs.Parent()
+		if prm, isP := a.(*ssa.Parameter); isP && prm.Parent() == g && privateHelper(c, g) && reflectArgNonNilAtCalls(c, g, paramIndex(prm), depth+1) {
+			continue
+		}
+		return false
+	}
+	return true
 }
 
 // ---- COMMAOK --------------------------------------------------------------------------
